@@ -61,7 +61,22 @@ def layout_case(tname, n_new, approved, leafvals):
     ns["k0"] = leafvals["c3"]
     world.reset(ns)
     t = TEMPLATES[tname]
-    r = world.core_session(t, approved)
+    if tname == "crlf":
+        # line endings are a property of the bytes on disk: this layout goes through the real hooks and the real write
+        world.install_plugin_shims()
+        pr = world.plugin_session({"test_a.py": t}, cli=",".join(sorted(approved)) if approved else "report")
+        if pr.finish_error is not None:
+            return False
+        with world.NoTracing():
+            old = str(pr.texts["test_a.py"])
+            new = (pr.root / "test_a.py").read_bytes().decode("utf-8")  # undecoded newlines
+
+        class _R:
+            text_before, text, path = old, new, pr.root / "test_a.py"
+
+        r = _R
+    else:
+        r = world.core_session(t, approved)
     old, new = r.text_before, r.text
     with world.NoTracing():
         old_s, new_s = str(old), str(new)
